@@ -18,10 +18,42 @@ FINDINGS_FILE = os.path.join(VERIF, 'known_findings.json')
 sys.dont_write_bytecode = True
 
 
+_COV = None
+
+
+def cov_start(fresh=False):
+    """Line coverage of the library under the checks (bin/covsweep): VERIF_COV=<dir> makes every harness process record
+    which lines of <repo>/dataflows it executed (one data file per process; forked workers start their own recorder)."""
+    global _COV
+    d = os.environ.get('VERIF_COV')
+    if not d or (_COV is not None and not fresh):
+        return
+    import atexit
+    import coverage
+    if _COV is not None:
+        try:
+            _COV.stop()
+        except Exception:
+            pass
+    _COV = coverage.Coverage(data_file=os.path.join(d, '.coverage'), data_suffix=True, source=[os.path.join(REPO, 'dataflows')],
+                             config_file=False)
+    _COV.start()
+    atexit.register(cov_save)
+
+
+def cov_save():
+    if _COV is not None:
+        try:
+            _COV.save()
+        except Exception:
+            pass
+
+
 def setup_repo():
     """Import dataflows from /repo's *current working tree* (no install, no bytecode cache)."""
     if REPO not in sys.path:
         sys.path.insert(0, REPO)
+    cov_start()
     os.environ.setdefault('PYTHONHASHSEED', '0')
     import logging
     logging.disable(logging.CRITICAL)
@@ -206,6 +238,7 @@ _WORKER_FN = None
 
 
 def _init_worker(fn_init):
+    cov_start(fresh=True)
     setup_repo()
     if fn_init:
         fn_init()
@@ -245,6 +278,7 @@ def _call(args):
         if guarded:
             signal.alarm(0)
             signal.signal(signal.SIGALRM, old)
+        cov_save()
 
 
 def _note_timeouts(results):
